@@ -311,8 +311,10 @@ class Cache:
             if self.group_by or self.is_summarized:
                 return "join with a grouped table"
 
+            # (also hidden constant columns: they stay usable through their references after the
+            # join and would be inlined as literals instead of being null on unmatched rows)
             if (node.how == "full" or (node.child not in self.derived_from and node.how == "left")) and any(
-                types.is_const(self.cols[uid].dtype()) for uid in self.uuid_to_name.keys()
+                types.is_const(col.dtype()) for col in self.cols.values()
             ):
                 return "left / full join with a table containing a constant column"
 
